@@ -1640,6 +1640,13 @@ class LogicalOperator(BinaryOperator, ABC):
         return self.__class__.__name__
 
     @property
+    def _right_outputs_are_cacheable_(self) -> bool:
+        """
+        Whether the outputs of the right operand can be served from the right cache instead of evaluating it.
+        """
+        return True
+
+    @property
     def _plot_color_(self) -> ColorLegend:
         return ColorLegend("LogicalOperator", '#2ca02c')
 
@@ -1812,7 +1819,8 @@ class ElseIf(OR):
                 any_left = True
                 left_value.update(sources)
                 if self.left._is_false_:
-                    if is_caching_enabled() and self.right_cache.check(left_value):
+                    if is_caching_enabled() and self._right_outputs_are_cacheable_ \
+                            and self.right_cache.check(left_value):
                         yield from self.yield_final_output_from_cache(left_value, self.right_cache)
                         continue
                     right_prev = self.right._eval_parent_
